@@ -459,7 +459,12 @@ def stream_sampleD(ctx, built, ntables, max_rows=80, name="S-sampleD"):
                 {"table": typed_summary(t), "main": mainc, "max_weight": mw, "clusters": PS.clusters_str(cl), "rows": len(cap["rows"])},
                 tag=f"{ncols}cols/{1 + len(cl.derived_clusters)}cl")
         if built:
-            got = TS.split_replies(drive(TS.forest_lines(ft, F, kind) + [req], timeout=900))
+            # every other table goes to the model as the typed table itself (convertors fitted and columns normalised in the model)
+            rl = raw_lines(t, F, kind) if ti % 2 == 1 else None
+            if rl is not None:
+                got = TS.split_replies(drive(rl + ["sampleD " + " | ".join(["="] + parts[1:])], timeout=900))
+            else:
+                got = TS.split_replies(drive(TS.forest_lines(ft, F, kind) + [req], timeout=900))
             g = got[-1] if got else ["<no reply>"]
             g = [l if l.split(" ")[0] in ("clusters", "cols", "left", "ERR") else " ".join(tok.rsplit(":", 1)[0] for tok in l.split(" ")) for l in g]
             if exp != g:
